@@ -318,10 +318,19 @@ func c10Run(p c10Params, ch vrt.Chooser, trace bool) (*world.World, *vrt.Exec, *
 			vrt.WaitQuiescent()
 			snapshot(true)
 			if !sc.second {
+				// what a serving server without any peer keeps running (accept loops, ...) is not the
+				// deleted peer's; everything beyond that is
+				idle := map[string]int{}
+				for k, v := range c10IdleServerSites {
+					idle[k] = v
+				}
 				for _, g := range vrt.Cur().LiveLib() {
-					if s := g.PendingSite(); !strings.HasPrefix(s, "server.go") && s != "net.Listener.Accept" {
-						o.leakAfterAPI = append(o.leakAfterAPI, g.Name()+"@"+s)
+					s := g.PendingSite()
+					if idle[s] > 0 {
+						idle[s]--
+						continue
 					}
+					o.leakAfterAPI = append(o.leakAfterAPI, g.Name()+"@"+s)
 				}
 			} else {
 				// the by-stander must still work
@@ -422,9 +431,35 @@ func c10Judge(p c10Params, w *world.World, e *vrt.Exec, o *c10Obs) (string, stri
 	return monitorCallbacks(w)
 }
 
+// c10IdleServerSites is the multiset of blocking sites of the library goroutines of a serving server that
+// has no peer, learnt from the tree under test (not from file names): the reference for "no goroutine
+// created for the deleted peer is still running".
+var c10IdleServerSites map[string]int
+
+func c10LearnIdleServer() {
+	if c10IdleServerSites != nil {
+		return
+	}
+	m := map[string]int{}
+	e := vrt.Run(vrt.Config{Horizon: int64(20 * time.Second)}, func() {
+		w := world.New(libIP)
+		w.NewServer(libIP)
+		w.Serve(libAddr)
+		vrt.WaitQuiescent()
+		for _, g := range vrt.Cur().LiveLib() {
+			m[g.PendingSite()]++
+		}
+		w.Close()
+		w.WaitServeDone()
+	})
+	e.Finish()
+	c10IdleServerSites = m
+}
+
 func c10Scn(p c10Params, bound int) *Scn {
 	name := fmt.Sprintf("%s/%s/step%d", c10Scripts[p.script].name, p.api, p.trigger)
 	return &Scn{Name: name, Bound: bound, Run: func(ch vrt.Chooser, trace bool) *ScnResult {
+		c10LearnIdleServer()
 		w, e, o := c10Run(p, ch, trace)
 		return finishRun("C10", c10Scripts[p.script].name, w, e, trace, true, func() (string, string) { return c10Judge(p, w, e, o) }, nil)
 	}}
